@@ -14,6 +14,7 @@ from exactly_lib.section_document.model import SectionContents
 from exactly_lib.test_case import test_case_doc
 from exactly_lib.test_case.phases.configuration import ConfigurationBuilder
 from exactly_lib.test_case.test_case_status import TestCaseStatus
+from exactly_lib.util import verif_trace
 
 
 def execute(conf: ExecutionConfiguration,
@@ -24,6 +25,12 @@ def execute(conf: ExecutionConfiguration,
     """
     The main method for executing a Test Case.
     """
+    verif_trace.emit('case-begin', lambda: dict(
+        keep=is_keep_sandbox,
+        act_mode=conf.exe_atc_and_skip_assertions is not None,
+        n=[verif_trace.num_instructions(x)
+           for x in (test_case.configuration_phase, test_case.setup_phase, test_case.act_phase,
+                     test_case.before_assert_phase, test_case.assert_phase, test_case.cleanup_phase)]))
     conf_phase_failure = execute_configuration_phase(configuration_builder,
                                                      test_case.configuration_phase)
     if conf_phase_failure is not None:
